@@ -30,7 +30,7 @@ package vm
 // Frames of the code-loading helpers (assumed; they do not touch the os field: see the scan above).
 //@ func (*VirtualMachine).loadCode
 //@ trusted
-//@ modcomps H_vm_VirtualMachine_loadedCode H_vm_code_ H_sync_ M E_
+//@ modcomps H_vm_VirtualMachine_loadedCode H_vm_code_ H_sync_ M E_ -MD_string_Pobject_Module -MV_string_Pobject_Module
 //@ func (*VirtualMachine).activateCode
 //@ trusted
 //@ modcomps H_vm_VirtualMachine_fp H_vm_VirtualMachine_ip H_vm_VirtualMachine_activeFrame H_vm_VirtualMachine_activeCode H_vm_VirtualMachine_frames H_vm_frame_ E_
@@ -80,6 +80,10 @@ package vm
 //@ assume[vm.frame.bounds] 0 <= vm.fp && vm.fp < 1023 && -1 <= vm.sp && vm.sp < 1023
 //@ ensures[C14.cache.hit] old(haskey(vm.modules, name)) ==> err == nil && result0 == old(vm.modules[name]) && vm.fp == old(vm.fp) && vm.sp == old(vm.sp) && vm.ip == old(vm.ip)
 //@ ensures[C07.import.unwind] vm.fp == old(vm.fp) && vm.ip == old(vm.ip)
+// C07: a module is published in vm.modules only after its body has run to completion - while eval() runs the body
+// the name is not in the table, so a body that ends in a Go panic (recovered further up, the VM stays usable)
+// cannot leave a half-initialised module behind for later invocations.
+//@ callpre[C07.import.unpublished] eval: !haskey(vm.modules, name)
 //@ ensures[C11.import.disabled] !old(haskey(vm.modules, name)) && old(vm.importer) == nil ==> err != nil && result0 == nil
 //@ ensures[C14.cache.fill] !old(haskey(vm.modules, name)) && err == nil ==> haskey(vm.modules, name) && vm.modules[name] == result0
 //@ requires[C12.ctx] ctx != nil && hasos(ctx)
